@@ -45,6 +45,10 @@ impl AsRef<Own> for Own { fn as_ref(&self) -> &Own { rt::op(format!("own_as_ref(
 impl AsMut<Own> for Own { fn as_mut(&mut self) -> &mut Own { rt::op(format!("own_as_mut({})", self.id)); self } }
 impl AsRef<[u64]> for Own { fn as_ref(&self) -> &[u64] { rt::op(format!("own_as_ref_slice({})", self.id)); &self.data } }
 impl AsMut<[u64]> for Own { fn as_mut(&mut self) -> &mut [u64] { rt::op(format!("own_as_mut_slice({})", self.id)); &mut self.data } }
+// `Borrow`/`BorrowMut` of the same target exist too and are observably different from `AsRef`/`AsMut` (other op, shorter
+// slice): a derived `AsRef<[u64]>` must go through the field's `AsRef`, never through `Borrow`
+impl core::borrow::Borrow<[u64]> for Own { fn borrow(&self) -> &[u64] { rt::op(format!("own_borrow_slice({})", self.id)); &self.data[..1] } }
+impl core::borrow::BorrowMut<[u64]> for Own { fn borrow_mut(&mut self) -> &mut [u64] { rt::op(format!("own_borrow_mut_slice({})", self.id)); &mut self.data[..1] } }
 
 /// The generic counterpart of `Own`: a field type with type parameters whose reflexive `AsRef`/`AsMut`
 /// is a logging, non-trivial implementation.
